@@ -352,6 +352,7 @@ func (w *World) checkRecoverer(r *Report, b *ssa.Function) {
 	// must-pass restricted to the subgraph reachable from nonNil
 	done := map[*ssa.BasicBlock]bool{}
 	var bad *ssa.BasicBlock
+	var repanic ssa.Instruction
 	var dfs func(b *ssa.BasicBlock, seen map[*ssa.BasicBlock]bool)
 	dfs = func(b *ssa.BasicBlock, seen map[*ssa.BasicBlock]bool) {
 		if bad != nil || seen[b] {
@@ -368,6 +369,10 @@ func (w *World) checkRecoverer(r *Report, b *ssa.Function) {
 				bad = b
 				return
 			}
+			if _, ok := in.(*ssa.Panic); ok {
+				repanic = in
+				return
+			}
 		}
 		for _, s := range b.Succs {
 			dfs(s, seen)
@@ -375,6 +380,9 @@ func (w *World) checkRecoverer(r *Report, b *ssa.Function) {
 	}
 	_ = reach
 	dfs(nonNil, map[*ssa.BasicBlock]bool{})
+	if repanic != nil {
+		r.bad("T-RECOVER", name+":repanic", w.instrPos(repanic), "the recovering closure panics again for some recovered values: those panics escape Compile/MustCompile instead of becoming an error")
+	}
 	if bad != nil {
 		r.bad("T-RECOVER", name+":convert", w.instrPos(bad.Instrs[len(bad.Instrs)-1]), "a recovered panic can reach the end of the deferred closure without a non-nil error being stored into "+errCell.Comment+": Compile would return (nil, nil) for some panic value type")
 	} else {
